@@ -1,6 +1,7 @@
 """Lazy-array operations (assumed contracts of numpy / jax.numpy). Trusted base; conformance-tested, not proved."""
 import z3
 from ..values import *
+from ..values import _ci
 from .. import reduce as R
 
 def Min(a, b):
@@ -88,6 +89,12 @@ def arr_subscript(o, idx):
     if len(idx) > o.ndim: raise PyRaise(_exc("IndexError"), "too many indices")
     # plan per source axis: ("int", i) | ("slice", start, length) | ("gather", arr) ; result dims in order
     plan = []; gathers = []
+    if len(idx) == 1 and isinstance(idx[0], slice) and idx[0].step not in (None, 1) and concrete_int(o.shape[0]) is not None \
+            and all(v is None or concrete_int(v) is not None for v in (idx[0].start, idx[0].stop, idx[0].step)):
+        sl = slice(*(None if v is None else concrete_int(v) for v in (idx[0].start, idx[0].stop, idx[0].step)))
+        src = list(range(concrete_int(o.shape[0])))[sl]                      # exact Python/NumPy slice semantics on a concrete length
+        r = SArr((len(src),) + tuple(o.shape[1:]), lambda ridx, src=src: o.get((src[_ci(ridx[0])] if concrete_int(ridx[0]) is not None else select_list(src, ridx[0]),) + tuple(ridx[1:])))
+        return r
     if len(idx) == 1 and isinstance(idx[0], slice) and idx[0].step == -1 and idx[0].start is None and idx[0].stop is None:
         n = o.shape[0]                                     # x[::-1] along the leading axis
         return SArr(o.shape, lambda ridx: o.get((plus(plus(n, -1), binop_("Sub", 0, ridx[0])),) + tuple(ridx[1:])))
@@ -390,7 +397,7 @@ def aabs(x):
     if is_z3(x): return z3.If(x >= 0, x, -x)
     return abs(x)
 def clip(x, lo=None, hi=None):
-    if isinstance(x, SArr): return SArr(x.shape, lambda idx: clip(x.get(idx), lo, hi))
+    if isinstance(x, SArr): return SArr(x.shape, lambda idx: clip(x.get(idx), _el(lo, idx) if isinstance(lo, SArr) else lo, _el(hi, idx) if isinstance(hi, SArr) else hi))
     if lo is not None: x = Max(x, lo)
     if hi is not None: x = Min(x, hi)
     return x
